@@ -250,7 +250,8 @@ func expandOpts(c *caseSpec, masks string) []optSpec {
 		panic("the first mask must be the Go-compatible one")
 	}
 	res[0].Ck, res[0].Full = "", false
-	if hasKind(c, "[]uint8") {
+	if hasKind(c, "[]uint8", "[0]uint8", "[1]uint8", "[4]uint8", "BA4", "BS", "[][4]uint8", "[]BS", "map[string][4]uint8") ||
+		strings.Contains(c.Top, "uint8") || c.Top == "BA4" || c.Top == "BS" || c.Top == "[]BS" {
 		for _, b := range []int{0, 2} {
 			for _, tags := range []bool{true, false} {
 				res = append(res, optSpec{Tags: tags, Exact: true, Bytes: b}, optSpec{Tags: tags, Exact: true, Bytes: b, Empty: true})
@@ -340,6 +341,11 @@ var encoders = []encoder{
 		return writeTo(o, 7, func(w io.Writer, o2 *ojg.Options) error { return pretty.WriteSEN(w, x, o2) }, true)
 	}},
 	{"sen.String", false, func(x, px any, o *ojg.Options) (string, *tree, error) { return senOut(sen.String(x, o)) }},
+	{"sen.String/indent", false, func(x, px any, o *ojg.Options) (string, *tree, error) {
+		o2 := *o
+		o2.Indent = 2
+		return senOut(sen.String(px, &o2))
+	}},
 	{"sen.String/ptr", false, func(x, px any, o *ojg.Options) (string, *tree, error) { return senOut(sen.String(px, o)) }},
 	{"pretty.JSON", true, func(x, px any, o *ojg.Options) (string, *tree, error) { return jsonOut(pretty.JSON(x, o)) }},
 	{"alt.Decompose", false, func(x, px any, o *ojg.Options) (string, *tree, error) {
